@@ -431,23 +431,43 @@ where
         let ggsw_infos: &GGSWLayout = &res.ggsw_layout();
 
         thread::scope(|scope| {
+            #[cfg(feature = "verif-hooks")]
+            let mut verif_spawned: usize = 0;
             for (thread_index, (scratch_thread, res_bits_chunk)) in scratches
                 .iter_mut()
                 .zip(res.bits[bit_start..bit_end].chunks_mut(chunk_size))
                 .enumerate()
             {
                 let start: usize = bit_start + thread_index * chunk_size;
+                #[cfg(feature = "verif-hooks")]
+                {
+                    verif_spawned += 1;
+                }
 
                 scope.spawn(move || {
+                    #[cfg(feature = "verif-hooks")]
+                    let _verif_guard = crate::verif_hooks::worker_begin(crate::verif_hooks::SITE_PREPARE, thread_index);
                     let (mut tmp_ggsw, scratch_1) = scratch_thread.take_ggsw(ggsw_infos);
                     let (mut tmp_lwe, scratch_2) = scratch_1.take_lwe(bits);
                     for (local_bit, dst) in res_bits_chunk.iter_mut().enumerate() {
+                        #[cfg(feature = "verif-hooks")]
+                        crate::verif_hooks::verif_yield(crate::verif_hooks::SITE_PREPARE, thread_index, 4 * (start + local_bit));
                         bits.get_bit_lwe(self, start + local_bit, &mut tmp_lwe, ks_glwe, ks_lwe, scratch_2);
+                        #[cfg(feature = "verif-hooks")]
+                        crate::verif_hooks::verif_yield(crate::verif_hooks::SITE_PREPARE, thread_index, 4 * (start + local_bit) + 1);
                         cbt.execute_to_constant(self, &mut tmp_ggsw, &tmp_lwe, 1, 1, scratch_2);
+                        #[cfg(feature = "verif-hooks")]
+                        crate::verif_hooks::verif_yield(crate::verif_hooks::SITE_PREPARE, thread_index, 4 * (start + local_bit) + 2);
                         self.ggsw_prepare(dst, &tmp_ggsw, scratch_2);
                     }
                 });
             }
+            #[cfg(feature = "verif-hooks")]
+            crate::verif_hooks::verif_yield(
+                crate::verif_hooks::SITE_SPAWNED,
+                crate::verif_hooks::SITE_PREPARE as usize,
+                verif_spawned,
+            );
         });
 
         for i in 0..bit_start {
